@@ -221,6 +221,39 @@ class Core63:
             return 13
         return 14
 
+    PRED_NAMES = ['unassigned', 'ascii7', 'join_control', 'old_hangul_jamo', 'ignorable', 'control', 'has_compat',
+                  'letter_digit', 'other_letter_digit', 'space', 'symbol', 'punctuation']
+
+    def pred_mask(self, c):
+        """every RFC 8264 section 9 predicate evaluated independently (bit i = PRED_NAMES[i])"""
+        gc = self.ud.gc[c]
+        m = 0
+        if gc == 'Cn' and not self.nonchar[c]:
+            m |= 1
+        if 0x21 <= c <= 0x7E:
+            m |= 2
+        if self.join_control[c]:
+            m |= 4
+        if self.hst['L'][c] or self.hst['V'][c] or self.hst['T'][c]:
+            m |= 8
+        if self.default_ignorable[c] or self.nonchar[c]:
+            m |= 16
+        if gc == 'Cc':
+            m |= 32
+        if self.has_compat(c):
+            m |= 64
+        if gc in ('Ll', 'Lu', 'Lo', 'Nd', 'Lm', 'Mn', 'Mc'):
+            m |= 128
+        if gc in ('Lt', 'Nl', 'No', 'Me'):
+            m |= 256
+        if gc == 'Zs':
+            m |= 512
+        if gc in ('Sm', 'Sc', 'Sk', 'So'):
+            m |= 1024
+        if gc in ('Pc', 'Pd', 'Ps', 'Pe', 'Pi', 'Pf', 'Po'):
+            m |= 2048
+        return m
+
     def dpv_pair(self, c):
         """(IdentifierClass value, FreeformClass value)"""
         cat = self.category(c)
